@@ -101,7 +101,12 @@ def generate(tier):
         for assign in assignments(sh, 'om'):
             for ctx in CTX[1:]:
                 cases.append(build(sh, assign, 'C', ctx=ctx))
-    return cases
+    seen, out = set(), []
+    for c in cases:
+        if c.key not in seen:
+            seen.add(c.key)
+            out.append(c)
+    return out
 
 
 RULE = ('every struct/enum shape within the bound x {own Clone, method} per field x {Clone; Copy, Clone; Clone, Copy} '
